@@ -2,7 +2,8 @@
 (* C09: which files `fclones group` considers, written from the documentation.                           *)
 (* A case c has: entries (sequence of records [parent, kind ("file"|"dir"|"link"|"other"), hidden, ign,    *)
 (* sel, target, dev]) - entry ids are the indices; parent = 0 for entries outside every other entry;       *)
-(* ignBy = the directories whose ignore file has a rule matching the entry; sel = the file passes the size and pattern filters     *)
+(* ignBy = the directories whose ignore file has a rule matching the entry's name (not only ancestors: with --follow-links the   *)
+(* ignore files of the ROUTE by which an entry is reached are in effect); sel = the file passes the size and pattern filters          *)
 (* (for a link reported with --symbolic-links: evaluated on the link's own path, size of its target);       *)
 (* target = the entry a link points to (0 = dangling); dev = file system of the entry; blocked = the link's   *)
 (* own path is matched by an --exclude pattern (excluded paths are not traversed).                            *)
@@ -16,7 +17,8 @@ EXTENDS Integers, Sequences, FiniteSets, TLC
 
 Ids(c) == 1..Len(c.entries)
 Children(c, d) == {e \in Ids(c) : c.entries[e].parent = d}
-\* an ignore file takes effect only if its directory is entered by the walk (it is at or below an input path)
+\* an ignore file takes effect only if its directory is entered by the walk (it is at or below an input path) on the route to the
+\* entry; an entry reachable by several routes is reported if it passes on at least one of them (Selected is the union over routes)
 Skipped(c, e, seen) == (c.entries[e].hidden /\ ~c.opts.hidden) \/ (~c.opts.noIgnore /\ \E i \in 1..Len(c.entries[e].ignBy) : c.entries[e].ignBy[i] \in seen)
 
 \* Visit(c, e, level, dev0, seen): the set of reported entry ids when the walk arrives at entry e on `level`;
